@@ -228,8 +228,11 @@ Generate(name) ==
 
 \* a meter is dedicated to one device type when everything connected below it is devices of that
 \* one type; such a meter has no unmetered load ("unmetered load only at meters not dedicated to
-\* one device type").  Every other meter (mixed, load-only, with sub-meters) may have one.
-Dedicated(m) == /\ cat[m] = "METER" /\ Succ(m) # {}
+\* one device type").  Every other meter (mixed, load-only, with sub-meters) may have one -- and so
+\* may THE grid meter (the only thing connected to the grid connection point) whatever is below
+\* it: it is the site's meter, not a device meter.
+IsTheGridMeter(m) == cat[m] = "METER" /\ parent[m] = 1 /\ \A j \in Nodes : parent[j] = 1 => j = m
+Dedicated(m) == /\ cat[m] = "METER" /\ ~IsTheGridMeter(m) /\ Succ(m) # {}
                 /\ \E d \in DeviceCats : \A s \in Succ(m) : cat[s] = d
 HasLoad(m) == cat[m] = "METER" /\ ~Dedicated(m)
 IsBasis(b) == cat[b] \in DeviceCats \/ HasLoad(b)
@@ -261,8 +264,15 @@ TrueTotal(name) == [b \in Nodes |-> IF IsBasis(b) /\ cat[b] \in CatsOf(name) THE
 TotalOK(name, F) == F.ok => Form(F.coef) = TrueTotal(name)
 \* a generator may refuse only where its documentation says so (CHP without a dedicated meter)
 GeneratedOK(name, F) == F.ok \/ (name = "chp" /\ ChpRefusal)
-\* every fallback formula measures exactly what the term it stands in for measures
-FallbackOK(F) == F.ok => \A p \in Nodes : F.fb[p] # <<>> => Form(F.fb[p]) = Form(Unit(p))
+\* every fallback formula measures what the term it stands in for measures.  The fallback of a
+\* meter is built from the components below it and is used while the meter is not reporting, so it
+\* cannot know unmetered load connected AT that meter: for a primary with an own unmetered-load
+\* variable (in practice: the grid meter above devices of one type) the demand is "everything the
+\* primary measures except its own unmetered load"; for every other primary it is equality.
+OwnLoad(p) == IF HasLoad(p) THEN Unit(p) ELSE ZeroVec
+FallbackOK(F) == F.ok => \A p \in Nodes : F.fb[p] # <<>> => Form(F.fb[p]) = VSub(Form(Unit(p)), OwnLoad(p))
+\* observation, not a clause: a fallback is attached to a term that carries unmetered load
+FallbackOmitsLoad(F) == F.ok /\ \E p \in Nodes : F.fb[p] # <<>> /\ HasLoad(p)
 \* grid = consumer + producer + battery + EV
 BalanceOK(Fg, Fc, Fp, Fb, Fe) ==
     (Fg.ok /\ Fc.ok /\ Fp.ok /\ Fb.ok /\ Fe.ok) =>
@@ -278,6 +288,12 @@ CauseMixedMeter ==
     /\ ~AreGridMeters
     /\ \E m \in ConsumerComponents : \E d \in Desc(m) : cat[d] \in DeviceCats
 Dev_MixedMeterAsConsumerWithoutGridMeter(Fcons) == CauseMixedMeter /\ Fcons = LegacyConsumer
+
+(* Known deviation of the code (KF-C12-3): CHPPowerFormula._get_chp_meters takes ANY meter whose    *)
+(* successors are all CHPs as the CHPs' dedicated meter, also the grid meter (is_chp_meter and     *)
+(* ProducerPowerFormula exclude it), so unmetered load at the grid meter is counted as CHP power. *)
+CauseGridMeterAsChpMeter == ~ChpRefusal /\ \E c \in ChpSet : IsGridMeter(parent[c])
+Dev_GridMeterAsChpMeter(Fchp) == CauseGridMeterAsChpMeter /\ Fchp = GenCHP
 
 -----------------------------------------------------------------------------
 (* state machine                                                              *)
@@ -371,7 +387,9 @@ BatteryTotal == Has("bat") => TotalOK("bat", gen["bat"])
 PVTotal == Has("pv") => TotalOK("pv", gen["pv"])
 PVDfsTotal == Has("pvd") => TotalOK("pvd", gen["pvd"])
 EVTotal == Has("ev") => TotalOK("ev", gen["ev"])
-CHPTotal == Has("chp") => TotalOK("chp", gen["chp"])
+CHPTotal == Has("chp") => (TotalOK("chp", gen["chp"]) \/ Dev_GridMeterAsChpMeter(gen["chp"]))
+\* ... exact: the CHP formula is wrong exactly where the cause holds
+ChpDevIsTight == Has("chp") => (CauseGridMeterAsChpMeter <=> ~TotalOK("chp", gen["chp"]))
 Generated == \A nm \in Names : Has(nm) => GeneratedOK(nm, gen[nm])
 FallbackEqualsPrimary == \A nm \in Names : Has(nm) => FallbackOK(gen[nm])
 Balance == pc = "done" =>
